@@ -37,6 +37,10 @@ func (g *customGen[V]) value(t *T) V {
 }
 
 func (g *customGen[V]) maybeValue(t *T) (V, bool) {
+	if verifOn {
+		verifEmit("custom.begin")
+		defer verifEmit("custom.end")
+	}
 	t = newT(t.tb, t.s, flags.debug, nil)
 	defer t.cleanup()
 
@@ -111,11 +115,17 @@ func find[V any](gen func(*T) (V, bool), t *T, tries int) V {
 		i := t.s.beginGroup(tryLabel, false)
 		v, ok := gen(t)
 		t.s.endGroup(i, !ok)
+		if verifOn {
+			verifEmit("find.try", "n", n, "tries", tries, "ok", ok)
+		}
 		if ok {
 			return v
 		}
 	}
 
+	if verifOn {
+		verifEmit("find.giveup", "tries", tries)
+	}
 	panic(invalidData(fmt.Sprintf("failed to find suitable value in %d tries", tries)))
 }
 
